@@ -302,6 +302,9 @@ class Report:
                 print("  " + descr)
             if len(self.violations) > 20:
                 print("  ... %d more violations" % (len(self.violations) - 20))
+            if os.environ.get("VERIF_DEBUG"):
+                for descr, path in self.violations:
+                    print("DBG " + " | ".join(descr.split("\n")[:3])[:400])
             return 1
         print("OK property=%s tier=%s wall=%.1fs %s" % (
             self.prop, self.tier, time.time() - self.t0,
